@@ -1,5 +1,6 @@
 import GrassProofs.Lemmas.SerializeEmbed
 import GrassProofs.Lemmas.SerializeAlphabet
+import GrassProofs.Lemmas.SerializeUtf8
 /-
   C05 — Output is well-formed, Sass-free CSS and a fixed point of the compiler.
 
@@ -23,6 +24,16 @@ import GrassProofs.Lemmas.SerializeAlphabet
       (6) readTree (serialize st cs t) = some (canon st t): print → read round trip of the model
                                                             — PROVED (C05_read_roundtrip) for every readable tree;
           the fixed point of grass's REAL parser is checked (recompilation), not proved.
+      (7) byte level: the bytes handed to `String::from_utf8_unchecked` (`serializeB`: the encoded buffer
+          finished by the byte-level `finish`) are valid UTF-8 and are the encoding of the text model
+                                                            — PROVED (C05_output_valid_utf8, C05_bytes_are_encoded_text);
+          every split point of a text is a character boundary of its encoding (C05_char_boundary); the one
+          byte-indexed slice of serializer.rs (`condition["(not ".len()..len-1]`) stays on boundaries and
+          cuts out the encoding of the text model's slice (C05_not_slice_on_boundaries, C05_media_query_bytes);
+          `str::len` = `byteLen` (C05_byte_len); the charset clause over BYTES (C05_charset_iff_bytes,
+          C05_charset_predicate_bytes).  The other writers are not re-modelled on bytes: they only append
+          whole texts / ASCII bytes, for which `encodeUtf8 (a ++ b) = encodeUtf8 a ++ encodeUtf8 b`
+          (C05_encode_append) is the whole argument.
 -/
 namespace Grass.Serialize
 
@@ -192,5 +203,97 @@ theorem C05_sass_free (c : Char) (hc : sassChar c = true) (st : Style) (cs : Boo
 example : treeLeafFree '%'
     [.rule true [⟨false, [.compound [.text ['a']]]⟩, ⟨false, [.compound [.placeholder ['p']], .comb '>', .compound [.text ['b']]]⟩]
       (.cons (.decl ['k'] false (.list .comma [.quoted ['{', '&'], .raw ['v']])) .nil)] = true := by decide +kernel
+
+/-! ## byte level -/
+
+/-- The encoder is a homomorphism: appending whole texts (all the serializer does outside the sites
+    below: `extend_from_slice(x.as_bytes())`, `push(b';')`, `write!`) never splits a character. -/
+theorem C05_encode_append (a b : Str) : encodeUtf8 (a ++ b) = encodeUtf8 a ++ encodeUtf8 b :=
+  encodeUtf8_append a b
+
+/-- The encoding of ANY text is valid UTF-8 (no overlong form, no surrogate, nothing above U+10FFFF,
+    no truncated sequence) — astral and combining characters included. -/
+theorem C05_encode_valid (s : Str) : validUtf8 (encodeUtf8 s) = true := validUtf8_encode s
+
+example : encodeUtf8 ['a', 'é', '✓', '\u0301', Char.ofNat 0x1F600, Char.ofNat 0xFEFF] =
+    [0x61, 0xC3, 0xA9, 0xE2, 0x9C, 0x93, 0xCC, 0x81, 0xF0, 0x9F, 0x98, 0x80, 0xEF, 0xBB, 0xBF] := by decide
+/-- (the validator does reject: overlong `/`, a surrogate, a truncated sequence, a lone continuation) -/
+example : validUtf8 [0xC0, 0xAF] = false ∧ validUtf8 [0xED, 0xA0, 0x80] = false ∧
+    validUtf8 [0xE2, 0x9C] = false ∧ validUtf8 [0x80] = false ∧ validUtf8 [0xF4, 0x90, 0x80, 0x80] = false := by decide
+
+/-- The bytes of the finished output — the top-level buffer as bytes, finished by the BYTE-level
+    `finish` (non-ASCII test on bytes, `;`/newline pushed as bytes, BOM / `@charset` inserted at byte
+    index 0) — are exactly the encoding of the text model's output … -/
+theorem C05_bytes_are_encoded_text (st : Style) (cs : Bool) (t : List Stmt) :
+    serializeB st cs t = encodeUtf8 (serialize st cs t) := serializeB_eq st cs t
+
+/-- … hence valid UTF-8: the argument of `String::from_utf8_unchecked` (serializer.rs:648) satisfies
+    what `from_utf8` would have checked, for every tree, both styles, with or without header. -/
+theorem C05_output_valid_utf8 (st : Style) (cs : Bool) (t : List Stmt) :
+    validUtf8 (serializeB st cs t) = true := by
+  rw [serializeB_eq]; exact validUtf8_encode _
+
+example : serializeB .compressed true
+    [.rule true [⟨false, [.compound [.text ['a']]]⟩] (.cons (.decl ['b'] false (.atom (.quoted [Char.ofNat 0x1F600]))) .nil)] =
+    [0xEF, 0xBB, 0xBF, 0x61, 0x7B, 0x62, 0x3A, 0x22, 0xF0, 0x9F, 0x98, 0x80, 0x22, 0x7D] := by decide +kernel
+
+/-- Every split point of a text is a character boundary (`str::is_char_boundary`) of its encoding. -/
+theorem C05_char_boundary (a b : Str) :
+    isCharBoundary (encodeUtf8 (a ++ b)) (encodeUtf8 a).length = true := boundary_append a b
+
+example : isCharBoundary (encodeUtf8 ['é', '✓']) 2 = true ∧ isCharBoundary (encodeUtf8 ['é', '✓']) 1 = false ∧
+    isCharBoundary (encodeUtf8 ['é', '✓']) 3 = false := by decide
+
+/-- `str::len` (used by `write_comment`, serializer.rs:1020) is the model's `byteLen`. -/
+theorem C05_byte_len (s : Str) : byteLen s = (encodeUtf8 s).length := byteLen_eq s
+
+/-- The only byte-indexed slice of serializer.rs, `condition["(not ".len()..condition.len() - 1]`
+    (:535): when the condition starts with `(not `, has a character after it and its last character is
+    one byte long (`notSliceOk`; it is the closing parenthesis) the range is well-ordered, both ends
+    are character boundaries (no panic) and the bytes cut out are the encoding of the text model's
+    `(c.drop 5).dropLast`. -/
+theorem C05_not_slice_on_boundaries (c : Str) (hp : startsWith c (lit "(not ") = true) (hk : notSliceOk c = true) :
+    notPrefixB.length ≤ (encodeUtf8 c).length - 1 ∧
+    isCharBoundary (encodeUtf8 c) notPrefixB.length = true ∧
+    isCharBoundary (encodeUtf8 c) ((encodeUtf8 c).length - 1) = true ∧
+    sliceB (encodeUtf8 c) notPrefixB.length ((encodeUtf8 c).length - 1) = encodeUtf8 ((c.drop 5).dropLast) :=
+  not_slice c hp hk
+
+example : notSliceOk (lit "(not (é: ✓))") = true ∧ notSliceOk (lit "(not ") = false ∧
+    notSliceOk (lit "(not é") = false := by decide
+
+/-- `write_media_query` run on BYTES (prefix test and slice with byte indices) writes the encoding of
+    what the text model writes — guard `sliceOk` as above (vacuous unless the query is a single
+    `(not …` condition). -/
+theorem C05_media_query_bytes (q : Query) (h : q.sliceOk = true) :
+    queryOutB q.toB = encodeUtf8 (queryOut q) := queryOutB_encode q h
+
+example : queryOutB (Query.toB ⟨none, some (lit "screen"), [lit "(not (é))"], true⟩) =
+    encodeUtf8 (lit "screen and not (é)") := by decide +kernel
+
+/-- The charset clause over BYTES: the output bytes start with EF BB BF (compressed) or with the
+    bytes of `@charset "UTF-8";\n` (expanded) exactly when charset output is allowed and the buffer
+    contains a byte ≥ 0x80 (`is_not_ascii`, serializer.rs:637) — guard: the bytes written without
+    header do not themselves start with a BOM / `@charset` rule. -/
+theorem C05_charset_iff_bytes (st : Style) (cs : Bool) (t : List Stmt)
+    (hg : hasCharsetOrBomB (serializeB st false t) = false) :
+    hasCharsetOrBomB (serializeB st cs t) = (cs && (encodeUtf8 (body st t)).any nonAsciiB) :=
+  charset_iff_bytes st cs t hg
+
+example : hasCharsetOrBomB (serializeB .expanded true
+    [.rule true [⟨false, [.compound [.text ['a']]]⟩] (.cons (.decl ['b'] false (.atom (.quoted ['é']))) .nil)]) = true ∧
+    hasCharsetOrBomB (serializeB .expanded false
+    [.rule true [⟨false, [.compound [.text ['a']]]⟩] (.cons (.decl ['b'] false (.atom (.quoted ['é']))) .nil)]) = false := by
+  decide +kernel
+
+/-- The byte-level P̂ the driver evaluates on grass's own bytes is the text-level P̂ of the decoded
+    text: header tests, the non-ASCII test and the header removal can all be done on bytes. -/
+theorem C05_charset_predicate_bytes (cs : Bool) (s : Str) :
+    charsetOkB cs (encodeUtf8 s) = charsetOk cs s ∧ hasCharsetOrBomB (encodeUtf8 s) = hasCharsetOrBom s ∧
+    (encodeUtf8 s).any nonAsciiB = s.any isNonAscii :=
+  ⟨charsetOkB_encode cs s, hasCharsetOrBomB_encode s, any_nonAscii s⟩
+
+example : charsetOkB true (encodeUtf8 (bom :: lit "a{b:é}")) = true ∧ charsetOkB true (encodeUtf8 (lit "a{b:é}")) = false := by
+  decide +kernel
 
 end Grass.Serialize
